@@ -5,9 +5,11 @@ from __future__ import annotations
 import hashlib
 import importlib
 import itertools
+import sys
 
 from lib import show_list
 import txlib
+from props import c05_machinery
 from txlib import hx, parse_bytes, parse_fields, show_fields, fields_of, dump_tx, parse_unspents_text, show_unspents
 
 from pycoin.encoding.hash import hash160
@@ -337,6 +339,8 @@ def _atoms(n):
 def impl(op: str) -> str:
     a = op.split(" ")
     k = a[0]
+    if k in c05_machinery.OPS:
+        return c05_machinery.impl(op, sys.modules[__name__])
     try:
         if k == "c05_der":
             return "ok " + hx(der.sigencode_der(int(a[1]), int(a[2])))
@@ -596,6 +600,11 @@ def oracle_sign_tx(op):
 def oracle(op: str, out: str):
     a = op.split(" ")
     k = a[0]
+    if k in c05_machinery.OPS:
+        try:
+            return c05_machinery.oracle(op, out, sys.modules[__name__])
+        except Exception as e:  # noqa: BLE001
+            return "oracle crashed: %r" % (e,)
     if k == "c05_sign_tx":
         try:
             return oracle_sign_tx(op)
@@ -1047,6 +1056,7 @@ def gen(ctx, emit):
     gen_der(ctx, emit, ctx.n(60, 3000))
     gen_sign_solver(ctx, emit, ctx.n(200, 4000))
     gen_keychain(ctx, emit, ctx.n(20, 600))
+    c05_machinery.gen(ctx, emit, sys.modules[__name__], pool)
 
     # --- boundary corpus: every template x coin, default hash type, all inputs
     for coin in COINS_MAIN:
